@@ -207,6 +207,25 @@ Proof.
   split; [split; [vm_compute; reflexivity | unfold local_graph; nodup_compute]|]. split; vm_compute; reflexivity.
 Qed.
 
+(** With C06's repair B of [decide_literal_type] (flag [dlt_from_suffix]) the
+    domain also holds lexical forms and datatype IRIs containing [^^], [xsd:],
+    [dt:], [@]: the kind is read after the closing quote only. *)
+Definition G_suffix : sgraph :=
+  [ty "a" "C"; st "a" "p" (SLit (Str "xsd:int ^^ dt:x") (Some (Str "http://ex.org/dt")) None);
+   st "a" "q" (SLit (Str "v") (Some (Str "mailto:a@b.org")) None); st "a" "r" (plain_lit "^^<x>");
+   st "a" "s" (SLit (Str "a@b") None (Some (Str "en")))].
+
+Example C15_suffix_literals_in_domain :
+  dlt_from_suffix = true ->
+  dom (cfg0 true false (-1) (-1)) G_suffix /\
+  yields (r_p2 (run (cfg0 true false (-1) (-1)) (MClasses [ex "C"]) G_suffix id_oracles)) = local_graph G_suffix /\
+  yields (r_p2 (run (cfg0 false false (-1) (-1)) (MClasses [ex "C"]) G_suffix id_oracles)) = local_graph G_suffix.
+Proof.
+  intros H.
+  first [ discriminate H
+        | split; [split; [vm_compute; reflexivity | unfold local_graph; nodup_compute]|]; split; vm_compute; reflexivity ].
+Qed.
+
 (** C15-F2 repaired: a statement linking two targets is delivered once. *)
 Definition G_f2 : sgraph := [ty "a" "C"; st "a" "p" (iri "b"); ty "b" "D"].
 Example C15_inverse_once :
